@@ -22,6 +22,14 @@ def _count_is_zero(a):
     return not is_iterable(a) and bool(a == 0)
 
 
+def _no_zero_divisor(a):
+    """Divide by zero is :undefined member by member, which the ufunc shortcuts of %/ and %\\ cannot express."""
+    try:
+        return not bool((a[1:] == 0).any())
+    except Exception:
+        return False
+
+
 def eval_adverb_converge(f, a, op, backend):
     """
         f:~a                                                  [Converge]
@@ -270,7 +278,7 @@ def eval_adverb_over(f, a, op, backend):
             return np_backend.subtract.reduce(a)
         elif safe_eq(op.a, '*') and hasattr(np_backend.multiply,'reduce'):
             return np_backend.multiply.reduce(a)
-        elif safe_eq(op.a, '%') and hasattr(np_backend.divide,'reduce'):
+        elif safe_eq(op.a, '%') and hasattr(np_backend.divide,'reduce') and _no_zero_divisor(a):
             return np_backend.divide.reduce(a)
         elif safe_eq(op.a, '&') and a.ndim == 1 and a.dtype != 'O':
             return np_backend.min(a)
@@ -366,7 +374,7 @@ def eval_adverb_scan_over(f, a, op, backend):
             return np_backend.subtract.accumulate(a)
         elif safe_eq(op.a, '*') and hasattr(np_backend.multiply, 'accumulate'):
             return np_backend.multiply.accumulate(a)
-        elif safe_eq(op.a, '%') and hasattr(np_backend.divide, 'accumulate'):
+        elif safe_eq(op.a, '%') and hasattr(np_backend.divide, 'accumulate') and _no_zero_divisor(a):
             return np_backend.divide.accumulate(a)
     r = list(itertools.accumulate(a, f))
     return backend.kg_asarray(r)
